@@ -80,6 +80,7 @@ type Sim struct {
 	HoldTime     time.Duration // how long a data frame stays "outstanding"
 	RefuseReg    bool
 	ConnectReply string // "ok", "refuse", "precondition"
+	ShortReply   map[byte]int // reply kind -> its data field is cut to this many bytes (a malformed reply to a request)
 
 	Received  []Frame // every frame the TNC received, in order
 	dataAt    []time.Time
@@ -221,6 +222,9 @@ func (s *Sim) serve() {
 			reply = &Frame{Port: f.Port, Kind: 'd', From: f.To, To: f.From, Data: []byte("*** DISCONNECTED From Station " + f.To + "\r\x00")}
 		}
 		if reply != nil {
+			if n, ok := s.ShortReply[reply.Kind]; ok && len(reply.Data) > n {
+				reply.Data = reply.Data[:n]
+			}
 			c.Write(reply.Encode())
 		}
 	}
